@@ -89,8 +89,20 @@ package codec
 //@   props C01 C02
 //@   at-store rd: assert [reader-always-completes-reads] dyntype(value, "codec.fullReader")
 
-// ---- C05: decoding untrusted packets never crashes ------------------------------------------------------------------
-// Every packet decoder below proto/packet is put under the implicit safety obligations (slice/array bounds, nil
-// dereference, make sizes, division, unchecked type assertions; an explicit panic must carry an error value, which
-// util.Recover turns into a returned error).
-//@ sweep go.minekube.com/gate/pkg/edition/java/proto/packet Decode ; props C05
+// ---- C05: decoding untrusted packets never crashes or blows up memory ----------------------------------------------
+// Containment: a packet's Decode runs only inside the closure decodePayload hands to util.RecoverFunc; RecoverFunc defers
+// util.Recover, which turns every panic whose value is an error (runtime errors included: index, nil, negative make)
+// into the returned error and lets only non-error values through. So what is left to show for the decoders is that
+// every explicit panic they can raise carries an error value and that no allocation is out of proportion.
+//@ census Decode : only-in (*Decoder).decodePayload$1 ; props C05
+//@ passed-only (*Decoder).decodePayload$1 to RecoverFunc ; props C05
+//@ func (*Decoder).decodePayload
+//@   props C05
+//@   maypanic
+//@   at-call RecoverFunc as guarded
+//@   at-call CreatePacket as mk
+//@   ensures [unknown-id-is-forwarded-not-decoded] called(mk) && isnil(res(mk)) ==> err == nil && !called(guarded)
+//@   ensures [decode-error-is-an-error] called(guarded) && res(guarded) != nil ==> err != nil
+// Every function below proto/ (packet decoders, the primitive readers and helpers they call) is put under two implicit
+// obligations: an explicit panic carries an error value; a make never asks for more than 2^21 elements.
+//@ sweep-reachable go.minekube.com/gate/pkg/edition/java/proto/packet Decode ; props C05
